@@ -447,6 +447,78 @@ func runC27(c *Ctx) {
 			arms[arm{isV2, k}] = true
 		}
 	}
+	// table-driven dispatch: `entry, ok := table[procedure]` with table one of two package-level maps chosen by
+	// the version == 2 test; the arms are the constant keys the package initialiser stores into those maps
+	if initFn := p.Pkg.Func("init"); initFn != nil {
+		keysOf := map[*ssa.Global][]int64{}
+		for _, b := range initFn.Blocks {
+			for _, in := range b.Instrs {
+				mu, ok := in.(*ssa.MapUpdate)
+				if !ok {
+					continue
+				}
+				k, isC := constInt(mu.Key)
+				if !isC {
+					continue
+				}
+				// the map value is stored into a global
+				if refs := mu.Map.Referrers(); refs != nil {
+					for _, r := range *refs {
+						if st, ok := r.(*ssa.Store); ok && st.Val == mu.Map {
+							if g, ok := st.Addr.(*ssa.Global); ok {
+								keysOf[g] = append(keysOf[g], k)
+							}
+						}
+					}
+				}
+			}
+		}
+		globalOf := func(v ssa.Value) *ssa.Global {
+			if u, ok := v.(*ssa.UnOp); ok && u.Op == token.MUL {
+				if g, ok := u.X.(*ssa.Global); ok {
+					return g
+				}
+			}
+			return nil
+		}
+		for _, b := range hc.Blocks {
+			for _, in := range b.Instrs {
+				lk, ok := in.(*ssa.Lookup)
+				if !ok || !lk.CommaOk {
+					continue
+				}
+				add := func(g *ssa.Global, facts []condFact) {
+					if g == nil {
+						return
+					}
+					for _, f := range facts {
+						op, _, r, okc := normCmp(f)
+						if !okc {
+							continue
+						}
+						if kk, isCC := constInt(r); isCC && kk == 2 && (op == "==" || op == "!=") {
+							for _, k := range keysOf[g] {
+								arms[arm{op == "==", k}] = true
+							}
+							return
+						}
+					}
+				}
+				if g := globalOf(lk.X); g != nil {
+					add(g, p.facts(b))
+				} else if phi, isPhi := lk.X.(*ssa.Phi); isPhi {
+					for i, e := range phi.Edges {
+						if i >= len(phi.Block().Preds) {
+							continue
+						}
+						pred := phi.Block().Preds[i]
+						facts := append(append([]condFact{}, p.facts(pred)...), edgeFacts(pred, phi.Block())...)
+						add(globalOf(e), facts)
+					}
+				}
+			}
+		}
+	}
 	for _, v2 := range []bool{true, false} {
 		for proc := int64(0); proc <= 4; proc++ {
 			name := "v3/v4"
